@@ -12,11 +12,11 @@ from .c10 import EXEMPT
 
 ID = 'C18'
 RULE = ('host models = (errno table, signal enum, address-family enum, socket-kind enum, SOL_SOCKET): the real host, '
-        'Darwin, an empty host, and generated permutations / sparse subsets of the names; installed by swapping '
+        'Darwin, an empty host, a BSD-numbered host (Darwin up to 81, its own names beyond), close relatives of Darwin (a handful of entries renamed / moved / missing) and generated permutations / sparse subsets of the names; installed by swapping '
         'errno.errorcode in place and rebinding signal.Signals, socket.AddressFamily, socket.SocketKind and '
         'socket.SOL_SOCKET in their home modules and in every module global of pykdebugparser.* that is identical to '
         'them; plus one RELOAD of the decoder modules on an "alien platform" (every integer constant of errno / socket / '
-        'signal renumbered or removed) so that tables built from the host at import time are seen too. Cases: every BSD decoder x EVERY error code 1..140 x 2 (quick) / 4 (thorough) START shapes under the real host and the Darwin model (errno table and E* constants swapped); every BSD decoder x sampled codes under all five models, sigaction 1..31, '
+        'signal renumbered or removed), on the BSD-numbered host, on the Darwin model and on a close relative, so that tables built from the host at import time are seen too. Cases: every BSD decoder x EVERY error code 1..140 x 2 (quick) / 4 (thorough) START shapes under the real host and the Darwin model (errno table and E* constants swapped); every BSD decoder x sampled codes under all five models, sigaction 1..31, '
         'socket/socketpair/socket_delegate x Darwin families x kinds 1..5, get/setsockopt with levels 0xffff/1/6/0. '
         'Oracle: (1) the rendered text is identical under every host model; (2) the names are Darwin\'s: errno and '
         'signal tables of xnu, required family names, SOCK_*, SOL_SOCKET + SO_* for level 0xffff; codes Darwin does '
@@ -95,9 +95,46 @@ def permuted_model(seed):
             'sock': perm(D.SOCK, 9), 'sol': [1, 7, 0xffff, 6][seed % 4]}
 
 
+BSD_TAIL = {45: 'EOPNOTSUPP', 82: 'EIDRM', 83: 'ENOMSG', 84: 'EOVERFLOW', 85: 'ECANCELED', 86: 'EILSEQ', 87: 'ENOATTR', 88: 'EDOOFUS',
+            89: 'EBADMSG', 90: 'EMULTIHOP', 91: 'ENOLINK', 92: 'EPROTO', 93: 'ENOTCAPABLE', 94: 'ECAPMODE', 95: 'ENOTRECOVERABLE',
+            96: 'EOWNERDEAD', 97: 'EINTEGRITY'}
+
+
+def bsd_like_model():
+    """a host that numbers like Darwin up to 81 (35 is EAGAIN, as on every BSD) and goes its own way beyond"""
+    m = darwin_model()
+    m['errno'] = {c: n for c, n in D.ERRNO.items() if c <= 81}
+    m['errno'].update(BSD_TAIL)
+    return m
+
+
+def near_darwin_model(seed):
+    """Darwin's tables with a handful of entries renamed, moved or missing (a close relative of the target platform)"""
+    m = darwin_model()
+    for key, span in (('errno', 110), ('signals', 31), ('af', 40), ('sock', 5)):
+        t = dict(m[key])
+        codes = sorted(t)
+        for j in range(1 + len(codes) // 8):
+            c = codes[(seed * 13 + j * 29) % len(codes)]
+            if key == 'af' and c == 0:
+                continue
+            what = (seed + j) % 3
+            if what == 0:
+                t[c] = t[c] + '_X'
+            elif what == 1:
+                t.pop(c)
+            else:
+                other = codes[(seed * 7 + j * 11 + 3) % len(codes)]
+                if other != c and c in t and other in t and not (key == 'af' and other == 0):
+                    t[c], t[other] = t[other], t[c]
+        m[key] = t
+    return m
+
+
 def models(seed):
     return [('host', None), ('darwin', darwin_model()), ('empty', empty_model()), ('perm%d' % (seed % 97), permuted_model(seed)),
-            ('perm%d' % ((seed * 31 + 5) % 89), permuted_model(seed * 31 + 5))]
+            ('perm%d' % ((seed * 31 + 5) % 89), permuted_model(seed * 31 + 5)), ('bsd-like', bsd_like_model()),
+            ('near-darwin%d' % (seed % 53), near_darwin_model(seed))]
 
 
 def render_under(name, a, e, seed):
@@ -245,17 +282,19 @@ def prop_reload(ctx, case):
         cases.append(('BSC_setsockopt', [3, level, 0x1001 if level == 0xffff else 7, 0x40], [0, 0, 0, 0]))
         cases.append(('BSC_getsockopt', [3, level, 0x1 if level == 0xffff else 3, 0x40], [0, 0, 0, 0]))
     here = [guard(render, n, a, e) for n, a, e in cases]
-    try:
-        with alien_platform():
-            guard(reload_decoders)
-            there = [guard(render, n, a, e) for n, a, e in cases]
-    finally:
-        reload_decoders()
-    for (n, a, e), x, y in zip(cases, here, there):
-        if x != y:
-            raise Violation(f'host-dependent:import-time:{n}', f'{n} START={a} END={e}: {x!r} here, {y!r} when the decoders are loaded on another platform')
-    ctx.note(['reload', len(cases)], nontrivial=True, classes=['reload-on-alien-platform'])
-    ctx.note(['reload-2'], nontrivial=True, classes=[])
+    platforms = [('an alien platform', alien_platform), ('a BSD-numbered platform', lambda: host(bsd_like_model())),
+                 ('the Darwin model', lambda: host(darwin_model())), ('a close relative of Darwin', lambda: host(near_darwin_model(case.get('seed', 5))))]
+    for label, platform in platforms:
+        try:
+            with platform():
+                guard(reload_decoders)
+                there = [guard(render, n, a, e) for n, a, e in cases]
+        finally:
+            reload_decoders()
+        for (n, a, e), x, y in zip(cases, here, there):
+            if x != y:
+                raise Violation(f'host-dependent:import-time:{n}', f'{n} START={a} END={e}: {x!r} here, {y!r} when the decoders are loaded on {label}')
+        ctx.note(['reload', label, len(cases)], nontrivial=True, classes=['reload:' + label.split()[-2] + '-' + label.split()[-1]])
 
 
 PROPS = {'reload': prop_reload, 'errno_sweep': prop_errno_sweep, 'errno': prop_errno, 'signal': prop_signal, 'socket': prop_socket, 'sockopt': prop_sockopt}
@@ -277,7 +316,7 @@ def run(ctx):
     sweep = [{'name': n, 'seed': base + i} for i, n in enumerate(n for n in every if n in byname)]
     ctx.run_enum('errno_sweep', sweep, prop_errno_sweep, exhaustive_label='every BSD decoder x error codes 1..140 x 2 (quick) / 4 (thorough) START shapes (host vs Darwin model)')
     if ctx.shard == 0:
-        ctx.run_enum('reload', [{}], prop_reload)
+        ctx.run_enum('reload', [{'seed': ctx.seed}], prop_reload)
     ctx.run_enum('signal', [{'sig': s, 'seed': base + s} for s in range(1, 32)], prop_signal, exhaustive_label='signals 1..31')
     so = [{'name': n, 'af': af, 'kind': k, 'seed': base + af * 7 + k}
           for n in ('BSC_socket', 'BSC_socketpair', 'BSC_socket_delegate') for af in sorted(D.AF) for k in range(1, 6)]
